@@ -370,7 +370,7 @@ func ruleReply(c *Ctx) {
 			}
 		case *ssa.Return:
 			if fr == t.RootFr && len(x.Results) == 1 {
-				if isNilConst(x.Results[0]) {
+				if isNilConst(t.Resolve(fr, x.Results[0]).V) {
 					return []Ev{{Kind: "return:nil"}}
 				}
 				return []Ev{{Kind: "return:err"}}
